@@ -10,7 +10,8 @@ echo "== suite with change:"; CARGO_TARGET_DIR=/tmp/st-target cargo test --offli
 if grep -q "cfg(feature = \"verif-hooks\")\|^use discv5::" $OUT/demo$I.rs 2>/dev/null; then
   mkdir -p tests && cp $OUT/demo$I.rs tests/seed_demo.rs
   echo "== demo with change:"; CARGO_TARGET_DIR=/tmp/st-target cargo test --offline --features verif-hooks --test seed_demo 2>&1 | grep "test result\|panicked" | head -3
-  git stash -q; echo "== demo without change:"; mkdir -p tests && cp $OUT/demo$I.rs tests/seed_demo.rs; CARGO_TARGET_DIR=/tmp/st-target cargo test --offline --features verif-hooks --test seed_demo 2>&1 | grep "test result" | head -2; rm -rf tests/seed_demo.rs; git stash pop -q
+  # (no `git stash`: the stash is shared by all worktrees of a repository)
+  git apply -R $OUT/patch$I.diff; echo "== demo without change:"; CARGO_TARGET_DIR=/tmp/st-target cargo test --offline --features verif-hooks --test seed_demo 2>&1 | grep "test result" | head -2; git apply $OUT/patch$I.diff
   rm -f tests/seed_demo.rs
 else echo "== demo: in-crate module test (see meta$I.txt)"; fi
 cd /verif
